@@ -247,9 +247,13 @@ PENDING_DEFECTS = {}
 def judge_e2e(o):
     """refuse cases: exit status 1 and nothing on the wire; exclude-ok cases: exactly the uncovered addresses probed"""
     argv = " ".join(a if len(a) < 70 else a[:67] + "..." for a in o["argv"])
-    if o["class"].startswith("exclude-ok"):
+    if o["class"].startswith("exclude-ok") and not o.get("set"):
         from checks import c01
-        return c01.judge_e2e(o)
+        why = c01.judge_e2e(o)
+        if not why and o["rc"] != 0:
+            why = "sx %s: the command fails (exit status %d: %s) although the exclusion file leaves addresses of the target to scan" % (
+                argv, o["rc"], (o.get("stderr") or "").strip().split("\n")[0][:120])
+        return why
     if o.get("set"):
         # judged as a set: every due destination at least once, nothing else, never the decoy
         import collections
